@@ -94,6 +94,9 @@ func runExportImport(j Job) *Result {
 				}
 			}
 			o.noTaintClasses = true
+			if cfg.ChainID != sim.DefaultConfig(1, nil).ChainID {
+				o.paramUser = cfg.Accounts[2] // parameter updates: ended and resumed feeders in the exported params
+			}
 			o.run(12 + r.Intn(40))
 		} else {
 			prof := []string{"", "exit", "keys", "queues", "slash"}[i%6]
